@@ -321,21 +321,31 @@ example :
 
 /-! ### the fitted region reaches two interface widths beyond the candidate -/
 
-/-- **The number of dilation steps is `⌊2w⌋ + 1`**: at least one cell, more than `2w` cells and at most
-`2w + 1` — counted in cells, whatever the grid spacing is. -/
-theorem fitIterations_spec (w : ℚ) (hw : 0 ≤ w) :
-    1 ≤ fitIterations w ∧ 2 * w < (fitIterations w : ℚ) ∧ (fitIterations w : ℚ) ≤ 2 * w + 1 := by
+/-- **The number of dilation steps is `⌊2w/dx⌋ + 1`**: at least one cell, more than `2w/dx` cells and at most
+`2w/dx + 1` — counted in cells: the region reaches two interface widths beyond the candidate whatever the unit of
+length is (repair 8d4e282; before, the width was not divided by the cell size). -/
+theorem fitIterations_spec (w dx : ℚ) (hw : 0 ≤ w) (hdx : 0 < dx) :
+    1 ≤ fitIterations w dx ∧ 2 * (w / dx) < (fitIterations w dx : ℚ) ∧ (fitIterations w dx : ℚ) ≤ 2 * (w / dx) + 1 := by
   unfold fitIterations
-  have h0 : (0 : ℤ) ≤ (2 * w).floor := Rat.le_floor_iff.mpr (by push_cast; linarith)
-  have h1 : (((2 * w).floor : ℤ) : ℚ) ≤ 2 * w := Rat.floor_le _
-  have h2 : 2 * w < (((2 * w).floor + 1 : ℤ) : ℚ) := Rat.lt_floor_add_one _
-  have hc : (((2 * w).floor.toNat : ℕ) : ℚ) = (((2 * w).floor : ℤ) : ℚ) := by
-    have : (((2 * w).floor.toNat : ℕ) : ℤ) = (2 * w).floor := Int.toNat_of_nonneg h0
+  set v := w / dx with hv
+  have hv0 : 0 ≤ v := div_nonneg hw hdx.le
+  have h0 : (0 : ℤ) ≤ (2 * v).floor := Rat.le_floor_iff.mpr (by push_cast; linarith)
+  have h1 : (((2 * v).floor : ℤ) : ℚ) ≤ 2 * v := Rat.floor_le _
+  have h2 : 2 * v < (((2 * v).floor + 1 : ℤ) : ℚ) := Rat.lt_floor_add_one _
+  have hc : (((2 * v).floor.toNat : ℕ) : ℚ) = (((2 * v).floor : ℤ) : ℚ) := by
+    have : (((2 * v).floor.toNat : ℕ) : ℤ) = (2 * v).floor := Int.toNat_of_nonneg h0
     exact_mod_cast this
   refine ⟨by omega, ?_, ?_⟩
   · push_cast at h2 ⊢; rw [hc]; linarith
   · push_cast; rw [hc]; linarith
 
-example : fitIterations 0 = 1 ∧ fitIterations (3/4) = 2 ∧ fitIterations 1 = 3 ∧ fitIterations (39/100) = 1 := by decide +kernel
+/-- the unit of length does not matter -/
+theorem fitIterations_scale (w dx lam : ℚ) (hl : lam ≠ 0) :
+    fitIterations (lam * w) (lam * dx) = fitIterations w dx := by
+  unfold fitIterations
+  rw [mul_div_mul_left _ _ hl]
+
+example : fitIterations 0 1 = 1 ∧ fitIterations (3/4) 1 = 2 ∧ fitIterations 1 1 = 3 ∧ fitIterations (39/100) 1 = 1
+    ∧ fitIterations 45 (75/2) = 3 ∧ fitIterations (3/100) (1/50) = 4 := by decide +kernel
 
 end DV.C04
